@@ -21,10 +21,12 @@
 
 import configparser
 import errno
+import functools
 import logging
 import os
 import shutil
 import stat
+import threading
 import uuid
 from io import BytesIO, StringIO
 from typing import Optional
@@ -183,6 +185,21 @@ class RepoCollectionMetadata(CollectionMetadata):
         self._write_config(config)
 
 
+def _serialised(fn):
+    """Run a store method while holding the store's lock.
+
+    Requests run store operations in worker threads; the uid/etag checks and
+    the write they guard must not interleave with those of another request.
+    """
+
+    @functools.wraps(fn)
+    def wrapper(self, *args, **kwargs):
+        with self._lock:
+            return fn(self, *args, **kwargs)
+
+    return wrapper
+
+
 class locked_index:
     def __init__(self, path) -> None:
         self._path = path
@@ -219,6 +236,7 @@ class GitStore(Store):
         super().__init__(MemoryIndex(), **kwargs)
         self.ref = repo.refs.follow(ref)[0][-1]
         self.repo = repo
+        self._lock = threading.RLock()
         # Maps uids to (sha, fname)
         self._uid_to_fname: dict[str, tuple[bytes, str]] = {}
         self._check_for_duplicate_uids = check_for_duplicate_uids
@@ -228,6 +246,7 @@ class GitStore(Store):
     def _get_etag(self, name: str) -> str:
         raise NotImplementedError(self._get_etag)
 
+    @_serialised
     def _import_one(
         self,
         name: str,
@@ -286,6 +305,7 @@ class GitStore(Store):
             raise InvalidETag(name, etag, replace_etag)
         return etag
 
+    @_serialised
     def import_one(
         self,
         name: str,
@@ -619,6 +639,7 @@ class BareGitStore(GitStore):
             message=message, tree=tree_id, ref=self.ref, author=author
         )
 
+    @_serialised
     def _import_one(
         self,
         name: str,
@@ -646,6 +667,7 @@ class BareGitStore(GitStore):
             self._commit_tree(tree.id, message.encode(DEFAULT_ENCODING), author=author)
         return b.id
 
+    @_serialised
     def delete_one(self, name, message=None, author=None, etag=None):
         """Delete an item.
 
@@ -717,6 +739,7 @@ class TreeGitStore(GitStore):
         tree = index.commit(self.repo.object_store)
         return self.repo.do_commit(message=message, author=author, tree=tree)
 
+    @_serialised
     def _import_one(
         self,
         name: str,
@@ -755,6 +778,7 @@ class TreeGitStore(GitStore):
                 raise OutOfSpaceError() from exc
             raise
 
+    @_serialised
     def delete_one(self, name, message=None, author=None, etag=None):
         """Delete an item.
 
